@@ -3,19 +3,28 @@ module verifharness
 go 1.22
 
 require (
+	github.com/iotaledger/hive.go/ads v0.0.0-00010101000000-000000000000
+	github.com/iotaledger/hive.go/app v0.0.0-00010101000000-000000000000
+	github.com/iotaledger/hive.go/constraints v0.0.0
+	github.com/iotaledger/hive.go/core v0.0.0-00010101000000-000000000000
+	github.com/iotaledger/hive.go/ds v0.0.0
 	github.com/iotaledger/hive.go/ierrors v0.0.0
 	github.com/iotaledger/hive.go/kvstore v0.0.0
+	github.com/iotaledger/hive.go/lo v0.0.0
+	github.com/iotaledger/hive.go/runtime v0.0.0
+	github.com/iotaledger/hive.go/serializer/v2 v2.0.0
+	github.com/iotaledger/hive.go/web v0.0.0-00010101000000-000000000000
 )
 
 require (
-	github.com/iotaledger/hive.go/constraints v0.0.0 // indirect
-	github.com/iotaledger/hive.go/ds v0.0.0 // indirect
-	github.com/iotaledger/hive.go/lo v0.0.0 // indirect
-	github.com/iotaledger/hive.go/runtime v0.0.0 // indirect
-	github.com/iotaledger/hive.go/serializer/v2 v2.0.0 // indirect
+	github.com/ethereum/go-ethereum v1.13.14 // indirect
+	github.com/holiman/uint256 v1.2.4 // indirect
+	github.com/iancoleman/orderedmap v0.3.0 // indirect
+	github.com/iotaledger/hive.go/log v0.0.0-20240325125531-49f04658265e // indirect
 	github.com/iotaledger/hive.go/stringify v0.0.0-20240315104458-b689cbcfddbd // indirect
 	github.com/kr/text v0.2.0 // indirect
 	github.com/petermattis/goid v0.0.0-20231207134359-e60b3f734c67 // indirect
+	github.com/pokt-network/smt v0.9.2 // indirect
 	github.com/sasha-s/go-deadlock v0.3.1 // indirect
 )
 
